@@ -18,8 +18,7 @@ pub trait RenameExt {
 
 impl RenameExt for String {
     fn to_camel_case(&self) -> String {
-        let pascal = self.to_pascal_case();
-        pascal[..1].to_ascii_lowercase() + &pascal[1..]
+        lowercase_first(&self.to_pascal_case())
     }
 
     fn to_pascal_case(&self) -> String {
